@@ -29,4 +29,10 @@ func init() {
 		Explain:     "configuration space (1280) and all table entries enumerated completely; payload space sampled",
 		Assumptions: []string{"the forced-mask symbol is compared (the penalty-based automatic mask choice is not part of the property)", "reference tables typed from ISO 18004 table 9; capacity anchors 7089/4296/2953/1817 etc. are re-derived at start"},
 	}
+	configs["C01"] = cfg{
+		Level: "exploration", QuickShards: 8, ThorShards: 16, QuickTO: 8 * time.Minute, ThorTO: 40 * time.Minute,
+		Rule:        "Round trip read(write(t)) == t with the same error-correction level. grid_all_configs: all 1280 (version, level, mask) configurations forced by hints, payload at capacity / capacity-1 computed by the independent capacity formula, content class rotating over numeric / alphanumeric / ASCII byte / UTF-8 byte / all byte values (ISO-8859-1 hint) / Kanji / Shift_JIS byte (thorough: 4 classes per configuration and the image path for versions <= 25). random: rapid (content class, level, version hint or auto, mask hint or auto, charset hint, margin 4..12, requested size up to 3x natural, matrix path or rendered-image path read with PURE_BARCODE), length drawn relative to the capacity of a target version (cap, cap-1, small, free) with versions 9|10, 26|27 over-weighted. Non-trivial = the text fits (by the independent formula) and was encoded, decoded and compared (every executed case); distinct by hash of all fields.",
+		Explain:     "configuration space enumerated completely, payloads and hint combinations sampled",
+		Assumptions: []string{"capacity / fit decided by internal/qrref (standard formulae)", "charset hints are only given for text representable in that charset (x/text round trip)", "margin hint >= 4 or absent"},
+	}
 }
